@@ -1,1 +1,3 @@
 import Ypv.Props.C15
+#print axioms Ypv.C15.required_errors_are_ypath
+#print axioms Ypv.C15.queries_errors_are_ypath
